@@ -1,46 +1,75 @@
 (* C09: concurrent cache use is race-free, deadlock-free and behaves like some sequential order.
    Property theorems only.  Gen_locktab.table is REGENERATED from /repo/src/cache_storage.cpp on every run
    (tools/locktab.py): the *_table theorems are re-checked against the current source each time. *)
-From CppcmsV Require Import Base.Tac C09.Defs C09.Proofs1 C09.Proofs2 C09.Proofs3 C09.Proofs4 C09.Proofs5 C09.Proofs6 C09.LockModel C09.Proofs7 gen.Gen_locktab.
-From CppcmsV Require C07.Defs C09.Seq.
+From CppcmsV Require Import Base.Tac C09.Defs C09.Proofs1 C09.Proofs2 C09.Proofs3 C09.Proofs4 C09.Proofs5 C09.Proofs6 C09.LockModel C09.Proofs7 C09.Proofs8 gen.Gen_locktab C09.Proofs9 C09.Proofs10 C09.Proofs11 C09.Proofs12.
+From CppcmsV Require C07.Defs C07.MapSpec C09.Seq.
 From Coq Require Import String.
 
 (* ---------- group 1: the lock discipline extracted from the current source passes the decidable checks ---------- *)
-Theorem race_free_table : race_free Gen_locktab.table = true.
-Proof. vm_compute. reflexivity. Qed.
+Theorem race_free_table : race_free Gen_locktab.table = true. Proof. vm_compute. reflexivity. Qed.
 Print Assumptions race_free_table.
 
-Theorem ordered_table : ordered Gen_locktab.table = true.
-Proof. vm_compute. reflexivity. Qed.
+Theorem ordered_table : ordered Gen_locktab.table = true. Proof. vm_compute. reflexivity. Qed.
 Print Assumptions ordered_table.
 
-Theorem two_phase_table : two_phase Gen_locktab.table = true.
-Proof. vm_compute. reflexivity. Qed.
+(* the table has one entry per PATH of a method (same name = alternative paths of one method; a call follows exactly one
+   of them): on every path no lock is taken after one was released *)
+Theorem two_phase_table : two_phase Gen_locktab.table = true. Proof. vm_compute. reflexivity. Qed.
 Print Assumptions two_phase_table.
 
-Theorem unlocked_only_constants_table : unlocked_only_constants Gen_locktab.table = true.
-Proof. vm_compute. reflexivity. Qed.
+(* alternative paths (Gen_locktab.alt_paths, from the current source): a method that calls another locked method while it
+   holds no lock and returns right after - store: catch(std::bad_alloc) { remove(key); return; } - has that call as a path of
+   its own.  Each such path is an entry of the table under the name of the caller, takes no lock of its own, and its
+   critical sections are exactly those of the callee: as far as locks and shared members go the call IS a call of the callee *)
+Theorem alt_paths_table : alt_paths_ok Gen_locktab.table Gen_locktab.alt_paths = true. Proof. vm_compute. reflexivity. Qed.
+Print Assumptions alt_paths_table.
+
+(* the path the repair 6978548 introduced is there: store has the alternative path that is a call of remove *)
+Definition has_alt_path (caller callee : string) (alts : list (string * string * scope)) : bool :=
+  existsb (fun x : string * string * scope => String.eqb (fst (fst x)) caller && String.eqb (snd (fst x)) callee) alts.
+Theorem store_failure_path_table : has_alt_path "store" "remove" Gen_locktab.alt_paths = true. Proof. vm_compute. reflexivity. Qed.
+Print Assumptions store_failure_path_table.
+
+Theorem alt_paths_ok_sound : forall tbl alts, alt_paths_ok tbl alts = true ->
+  forall caller callee p, In (caller, callee, p) alts ->
+    In (caller, p) tbl /\ scope_lock p = None /\ exists m, In (callee, m) tbl /\ scope_kids p = scope_kids m.
+Proof. exact alt_paths_ok_sound_l. Qed.
+Print Assumptions alt_paths_ok_sound.
+
+Theorem unlocked_only_constants_table : unlocked_only_constants Gen_locktab.table = true. Proof. vm_compute. reflexivity. Qed.
 Print Assumptions unlocked_only_constants_table.
 
 (* the value, trigger list, deadline and generation of an entry are read only under access_lock and written only
    under access_lock held exclusively; likewise the index structures *)
 Definition excl_guarded_fields : list fieldid :=
   [f_c_data; f_c_triggers; f_c_timeout; f_c_generation; f_primary; f_triggers; f_timeout; f_size; f_triggers_count; f_generation; f_refs].
-Theorem entry_fields_guarded_table :
-  forallb (fun f => field_guarded Gen_locktab.table f l_access_lock && writes_guarded_excl Gen_locktab.table f l_access_lock)
-          excl_guarded_fields = true.
-Proof. vm_compute. reflexivity. Qed.
+(* (statement as a definition so that statement and proof are on one line: bin/check names a failing theorem by its line) *)
+Definition entry_fields_guarded (tbl : list (string * scope)) : Prop :=
+  forallb (fun f => field_guarded tbl f l_access_lock && writes_guarded_excl tbl f l_access_lock) excl_guarded_fields = true.
+Theorem entry_fields_guarded_table : entry_fields_guarded Gen_locktab.table. Proof. vm_compute. reflexivity. Qed.
 Print Assumptions entry_fields_guarded_table.
 
 (* the LRU list and the per-entry LRU position are touched only under access_lock, and only under lru_mutex unless
    access_lock is held exclusively *)
-Theorem lru_fields_guarded_table :
-  forallb (fun f => field_guarded Gen_locktab.table f l_access_lock) [f_lru; f_c_lru] = true /\
+Definition lru_fields_guarded (tbl : list (string * scope)) : Prop :=
+  forallb (fun f => field_guarded tbl f l_access_lock) [f_lru; f_c_lru] = true /\
   forallb (fun n : node => negb (existsb (fun a : access => N.eqb (fst a) f_lru || N.eqb (fst a) f_c_lru) (snd n))
                            || holds_excl l_access_lock (fst n) || holds_excl l_lru_mutex (fst n))
-          (all_nodes Gen_locktab.table) = true.
-Proof. split; vm_compute; reflexivity. Qed.
+          (all_nodes tbl) = true.
+Theorem lru_fields_guarded_table : lru_fields_guarded Gen_locktab.table. Proof. split; vm_compute; reflexivity. Qed.
 Print Assumptions lru_fields_guarded_table.
+
+(* the data-carrying lock-level model (LockModel.v, group 4 (iv)) assumes a lock protocol per operation: mutators one exclusive
+   section on access_lock, stats one shared section, fetch one shared section with the lru_mutex section nested in it.
+   Every entry - every path of every method - of the table extracted from the CURRENT source has exactly that shape *)
+Theorem lock_model_shape_table : table_has_proto_shape l_access_lock l_lru_mutex Gen_locktab.table = true. Proof. vm_compute. reflexivity. Qed.
+Print Assumptions lock_model_shape_table.
+
+(* and the sections do what the model lets them do: a section under access_lock Shared alone only reads; the section under
+   access_lock Shared + lru_mutex writes nothing but lru / c.lru (the LRU move); outside every lock only reads; every other
+   section holds access_lock exclusively *)
+Theorem reader_sections_table : reader_sections_ok l_access_lock l_lru_mutex f_lru f_c_lru Gen_locktab.table = true. Proof. vm_compute. reflexivity. Qed.
+Print Assumptions reader_sections_table.
 
 (* ---------- group 2: soundness of the checks, for every table, any number of threads and calls ---------- *)
 (* full statement: if race_free tbl = true then in no reachable configuration of the interleaving semantics do two
@@ -103,7 +132,7 @@ Theorem cache_mutators_isolated : forall c, reachable Gen_locktab.table c -> for
   In (l_access_lock, Excl) (held (c t)) /\ forall u m, u <> t -> ~ In (l_access_lock, m) (held (c u)).
 Proof.
   intros c Hr t f Hf Hin. apply (writer_alone_l Gen_locktab.table f l_access_lock); auto.
-  pose proof entry_fields_guarded_table as H. rewrite forallb_forall in H. specialize (H f Hf).
+  pose proof entry_fields_guarded_table as H. unfold entry_fields_guarded in H. rewrite forallb_forall in H. specialize (H f Hf).
   apply andb_true_iff in H. apply H.
 Qed.
 Print Assumptions cache_mutators_isolated.
@@ -163,13 +192,18 @@ Print Assumptions cache_conflict_serializable.
    premises under which the calls may be regarded as taking effect atomically at their lock points.
    (iv) lock_model_linearizable (below) - the data-carrying lock-level model, in which fetch is split into lookup, LRU
    move under lru_mutex and copy-out with other threads interleaving, is linearizable w.r.t. the sequential model.
-   GAP (named): (iv) takes as atomic the steps that groups 1-3b justify treating as atomic (a whole mutator body under the
-   exclusive lock; the LRU move under lru_mutex; each read of a fetch/stats under the shared lock, during which no
-   member it reads is written).  The formal connection between the access table (a may-access abstraction of each
-   method body, without data semantics for an individual member access) and the step granularity of (iv) - i.e. that
-   the real method body, run without conflicting interference, computes the step of the sequential model - is not a
-   Coq theorem: it is C07's correspondence (sequential meaning of each body) plus the paper argument in docs/C09.md,
-   and it is searched on the real cache (recorded histories checked linearizable by bin/check). *)
+   (v) lock_model_shape_table, reader_sections_table (group 1), lock_model_follows_table, lock_model_refines_table (below) -
+   the data-level model of (iv) follows the lock protocol of the table extracted from the CURRENT source, and every one
+   of its reachable configurations corresponds to a reachable, race-free configuration of the table semantics in which
+   every thread holds exactly the same locks: (iv) is a data refinement of the semantics groups 1-3b are about.
+   (vi) group 5 - the clauses of the property text for every linearizable history, hence for every execution of (iv).
+   REMAINING GAP (named): (iv) takes as atomic the steps that groups 1-3b justify treating as atomic (a whole mutator body
+   under the exclusive lock; the LRU move under lru_mutex; each read of a fetch/stats under the shared lock, during which
+   no member it reads is written: reader_sections_table, cache_no_torn_value, cache_mutators_isolated).  That the real
+   method body, run without conflicting interference, computes the step the model gives it is not a Coq theorem (the
+   table is a may-access abstraction without data semantics for an individual member access): it is C07's
+   correspondence (sequential meaning of each body; re-tied single-threaded by bin/check C09) and it is searched on the
+   real cache (recorded histories, also with injected allocation faults, checked linearizable by bin/check). *)
 Theorem atomic_effect_linearizable :
   forall (St Op Ret : Type) (eff : St -> Op -> St * Ret) (s0 : St) (c : lconfig St Op Ret),
     lreachable St Op Ret eff s0 c -> linearizable St Op Ret eff s0 (l_hist St Op Ret c).
@@ -199,6 +233,46 @@ Theorem lock_model_linearizable : forall (now : Z) (limit : N) c, creachable now
   linearizable cst Seq.cop Seq.cret (Seq.eff now) (C07.Defs.init limit) (cc_hist c).
 Proof. exact lock_model_linearizable_l. Qed.
 Print Assumptions lock_model_linearizable.
+
+(* the failed store (std::bad_alloc while the value is copied; source: catch block calls remove(key) and returns; table: the
+   path store-via-remove, alt_paths_table) is, as an operation of the sequential object, exactly a remove of the key - state and
+   result - so the data-level model treats it as a mutator with one exclusive section, which is the shape of that path *)
+Theorem failed_store_is_remove : forall now s k v tin d g,
+  Seq.eff now s (Seq.OStoreFail k v tin d g) = Seq.eff now s (Seq.ORemove k).
+Proof. reflexivity. Qed.
+Print Assumptions failed_store_is_remove.
+
+(* every operation of the sequential object enters the table under a name whose paths all have the protocol shape, and in
+   every phase a thread of the data-level model holds a lock stack that occurs in that shape *)
+Theorem lock_model_follows_table : forall (o : Seq.cop),
+  exists sh, proto_shape l_access_lock l_lru_mutex (name_of o) = Some sh /\
+    (forall m, In (name_of o, m) Gen_locktab.table -> shape m = sh) /\
+    (exists m, In (name_of o, m) Gen_locktab.table) /\
+    forall (p : cphase), (holds_x p = true -> is_mut o = true -> In (phase_held l_access_lock p) sh) /\
+                         (holds_s p = true -> is_mut o = false -> In (phase_held l_access_lock p) sh).
+Proof.
+  apply (lock_model_follows_l l_access_lock l_lru_mutex Gen_locktab.table lock_model_shape_table). vm_compute. reflexivity.
+Qed.
+Print Assumptions lock_model_follows_table.
+
+(* the data-level model is a refinement of the table semantics of the CURRENT source: every reachable configuration of the
+   data-level model corresponds thread by thread (LockModel.TR: same method path, same scope, same remaining nested
+   scopes) to a reachable configuration of the interleaving semantics of Gen_locktab.table in which every thread holds
+   exactly the locks its phase says; in particular that configuration has no race (group 3).  For ANY table of the
+   protocol shape: Proofs10.lock_model_refines_l. *)
+Theorem lock_model_refines_table : forall (now : Z) (limit : N) c, creachable now limit c ->
+  exists c', reachable Gen_locktab.table c' /\ Rel l_access_lock l_lru_mutex Gen_locktab.table c c' /\
+             (forall t, held (c' t) = phase_held l_access_lock (cc_ph c t)) /\ ~ race c'.
+Proof.
+  intros now limit c Hc.
+  destruct (lock_model_refines_l l_access_lock l_lru_mutex Gen_locktab.table) with (now := now) (limit := limit) (c := c)
+    as (c' & Hr & HR & Hh); try exact Hc.
+  - discriminate.
+  - exact lock_model_shape_table.
+  - intros o. destruct (lock_model_follows_table o) as (sh & _ & _ & Hm & _). exact Hm.
+  - exists c'. repeat split; try assumption. exact (race_free_sound_l Gen_locktab.table race_free_table c' Hr).
+Qed.
+Print Assumptions lock_model_refines_table.
 
 Theorem lock_model_exclusion : forall (now : Z) (limit : N) c, creachable now limit c ->
   forall t u, t <> u -> holds_x (cc_ph c t) = true -> holds_x (cc_ph c u) = false /\ holds_s (cc_ph c u) = false.
@@ -369,4 +443,220 @@ Proof.
   fwd H ltac:(eapply (cs_res_s _ _ 1%nat); reflexivity).
   fwd H ltac:(eapply (cs_res_s _ _ 2%nat); reflexivity).
   eexists. split; [exact H|]. split; vm_compute; reflexivity.
+Qed.
+
+(* the failed store: (i) the table of the current source really has the path store-via-remove (so alt_paths_table and
+   two_phase_table say something about it); (ii) in the data-level model a failed store of a cached key overlaps a fetch:
+   the fetch takes the shared lock first and still hits, the failed store then removes the entry under the exclusive lock
+   and returns BEFORE the fetch returns, the next fetch misses *)
+Example failed_store_path_nonvacuous :
+  has_alt_path "store" "remove" Gen_locktab.alt_paths = true /\
+  exists c, creachable 1000%Z 0%N c /\
+    cc_hist c = [Inv _ _ 0 0 (Seq.OStore lk lv [] 2000%Z None); Res _ _ 0 Seq.RUnit;
+                 Inv _ _ 1 1 (Seq.OStoreFail lk lv [] 2000%Z None); Inv _ _ 2 2 (Seq.OFetch lk);
+                 Res _ _ 1 Seq.RUnit; Res _ _ 2 (Seq.RHit lv [lk] 2000%Z 0%N);
+                 Inv _ _ 3 2 (Seq.OFetch lk); Res _ _ 3 Seq.RMiss] /\
+    C07.Defs.size (cc_st c) = 0%N.
+Proof.
+  split; [exact store_failure_path_table|].
+  pose proof (creach_init 1000%Z 0%N) as H.
+  fwd H ltac:(apply (cs_inv _ _ 0%nat (Seq.OStore lk lv [] 2000%Z None)); reflexivity).
+  fwd H ltac:(eapply (cs_lock_x _ _ 0%nat); [reflexivity|alone]).
+  fwd H ltac:(eapply (cs_effect _ _ 0%nat); reflexivity).
+  fwd H ltac:(eapply (cs_unlock_x _ _ 0%nat); reflexivity).
+  fwd H ltac:(eapply (cs_res_x _ _ 0%nat); reflexivity).
+  fwd H ltac:(apply (cs_inv _ _ 1%nat (Seq.OStoreFail lk lv [] 2000%Z None)); reflexivity).
+  fwd H ltac:(apply (cs_inv _ _ 2%nat (Seq.OFetch lk)); reflexivity).
+  fwd H ltac:(eapply (cs_lock_s _ _ 2%nat); [reflexivity|alone]).
+  fwd H ltac:(eapply (cs_hit _ _ 2%nat); reflexivity).
+  fwd H ltac:(eapply (cs_move _ _ 2%nat); reflexivity).
+  fwd H ltac:(eapply (cs_copy _ _ 2%nat); reflexivity).
+  fwd H ltac:(eapply (cs_unlock_s _ _ 2%nat); reflexivity).
+  fwd H ltac:(eapply (cs_lock_x _ _ 1%nat); [reflexivity|alone]).
+  fwd H ltac:(eapply (cs_effect _ _ 1%nat); reflexivity).
+  fwd H ltac:(eapply (cs_unlock_x _ _ 1%nat); reflexivity).
+  fwd H ltac:(eapply (cs_res_x _ _ 1%nat); reflexivity).
+  fwd H ltac:(eapply (cs_res_s _ _ 2%nat); reflexivity).
+  fwd H ltac:(apply (cs_inv _ _ 2%nat (Seq.OFetch lk)); reflexivity).
+  fwd H ltac:(eapply (cs_lock_s _ _ 2%nat); [reflexivity|alone]).
+  fwd H ltac:(eapply (cs_miss _ _ 2%nat); reflexivity).
+  fwd H ltac:(eapply (cs_unlock_s _ _ 2%nat); reflexivity).
+  fwd H ltac:(eapply (cs_res_s _ _ 2%nat); reflexivity).
+  eexists. split; [exact H|]. split; vm_compute; reflexivity.
+Qed.
+
+(* ---------- group 5: the clauses of the property text for CONCURRENT histories ---------- *)
+(* for ANY history that is linearizable w.r.t. the cache object and names every call once (any limit, any clock value):
+   a fetch that returned a hit (v, trigs, d, g) is explained by a store to THE SAME key with exactly that value, deadline
+   and trigger set (store_trigs k tin = the key plus the given triggers) and, when given, generation - so never a torn or
+   mixed entry and never the value of another key -; that store was not invoked after the fetch returned; and no call that
+   invalidates the entry (rise of one of its triggers, remove of the key, clear, another store or failed store of the key:
+   C07.MapSpec.invalidates) ran entirely between that store and the fetch - in particular never a value whose trigger
+   had already been raised before the fetch began, unless the store itself did not precede that rise.
+   Proof: linearization + C07's theorems about sequential histories (fetch_hit_is_latest_store, fetch_miss_after_invalidation,
+   fetch_miss_never_stored, fetch_miss_after_failed_store).  These are the predicates the oracle of checks/C09.py evaluates
+   on the recorded answers of the real cache (hit-not-a-stored-entry, hit-before-store, stale-hit). *)
+Theorem concurrent_hit_explained : forall (now : Z) (lim : N) h,
+  linearizable C07.Defs.state Seq.cop Seq.cret (Seq.eff now) (C07.Defs.init lim) h -> inv_unique h ->
+  forall idf v trigs d g, In (Res Seq.cop Seq.cret idf (Seq.RHit v trigs d g)) h ->
+  exists k tf ids ts tin gs,
+    In (Inv Seq.cop Seq.cret idf tf (Seq.OFetch k)) h /\ In (Inv Seq.cop Seq.cret ids ts (Seq.OStore k v tin d gs)) h /\
+    trigs = C07.Defs.store_trigs k tin /\ (forall x, gs = Some x -> g = x) /\
+    ~ before h (Res Seq.cop Seq.cret idf (Seq.RHit v trigs d g)) (Inv Seq.cop Seq.cret ids ts (Seq.OStore k v tin d gs)) /\
+    forall idr tr o rr, C07.MapSpec.invalidates k trigs (Seq.to_op now o) = true ->
+      before h (Res Seq.cop Seq.cret ids Seq.RUnit) (Inv Seq.cop Seq.cret idr tr o) ->
+      before h (Res Seq.cop Seq.cret idr rr) (Inv Seq.cop Seq.cret idf tf (Seq.OFetch k)) -> False.
+Proof. exact lin_hit_explained. Qed.
+Print Assumptions concurrent_hit_explained.
+
+(* ... and every history of the data-level lock model is such a history *)
+Theorem lock_model_hit_explained : forall (now : Z) (limit : N) c, creachable now limit c ->
+  forall idf v trigs d g, In (Res Seq.cop Seq.cret idf (Seq.RHit v trigs d g)) (cc_hist c) ->
+  exists k tf ids ts tin gs,
+    In (Inv Seq.cop Seq.cret idf tf (Seq.OFetch k)) (cc_hist c) /\ In (Inv Seq.cop Seq.cret ids ts (Seq.OStore k v tin d gs)) (cc_hist c) /\
+    trigs = C07.Defs.store_trigs k tin /\ (forall x, gs = Some x -> g = x) /\
+    ~ before (cc_hist c) (Res Seq.cop Seq.cret idf (Seq.RHit v trigs d g)) (Inv Seq.cop Seq.cret ids ts (Seq.OStore k v tin d gs)) /\
+    forall idr tr o rr, C07.MapSpec.invalidates k trigs (Seq.to_op now o) = true ->
+      before (cc_hist c) (Res Seq.cop Seq.cret ids Seq.RUnit) (Inv Seq.cop Seq.cret idr tr o) ->
+      before (cc_hist c) (Res Seq.cop Seq.cret idr rr) (Inv Seq.cop Seq.cret idf tf (Seq.OFetch k)) -> False.
+Proof. exact lock_model_hit_explained_l. Qed.
+Print Assumptions lock_model_hit_explained.
+
+(* non-vacuous: the interleaved run of lock_model_nonvacuous is a history with hits; the theorem names the store that
+   explains the hit of call 1 *)
+Example hit_explained_nonvacuous :
+  exists c, creachable 1000%Z 0%N c /\ In (Res Seq.cop Seq.cret 1 (Seq.RHit lv [lk] 2000%Z 0%N)) (cc_hist c) /\
+    exists ids ts tin gs, In (Inv Seq.cop Seq.cret ids ts (Seq.OStore lk lv tin 2000%Z gs)) (cc_hist c).
+Proof.
+  destruct lock_model_nonvacuous as (c & Hc & Hh & _). exists c. split; [exact Hc|].
+  assert (Hin : In (Res Seq.cop Seq.cret 1 (Seq.RHit lv [lk] 2000%Z 0%N)) (cc_hist c)) by (rewrite Hh; simpl; tauto).
+  split; [exact Hin|].
+  destruct (lock_model_hit_explained _ _ c Hc _ _ _ _ _ Hin) as (k & tf & ids & ts & tin & gs & Hf & Hs & _).
+  assert (k = lk).
+  { rewrite Hh in Hf. simpl in Hf. repeat (destruct Hf as [E|Hf]; [try discriminate; inversion E; reflexivity|]). contradiction. }
+  subst k. eauto.
+Qed.
+
+(* the miss clause (no size limit, no failed store in the history): a fetch of key k that was invoked after a store of a
+   live entry (deadline >= now) under k returned, every OTHER call that could invalidate that entry (rise of one of its
+   triggers, remove, clear, another store of the key) having returned before that store was invoked, does not miss.
+   (the oracle's miss-of-live-entry predicate; proof: linearization + C07.live_entry_found) *)
+Theorem concurrent_miss_explained : forall (now : Z) h,
+  linearizable C07.Defs.state Seq.cop Seq.cret (Seq.eff now) (C07.Defs.init 0) h -> inv_unique h ->
+  (forall id t k v tin d g, ~ In (Inv Seq.cop Seq.cret id t (Seq.OStoreFail k v tin d g)) h) ->
+  forall ids ts k v tin d gs idf tf,
+    In (Inv Seq.cop Seq.cret ids ts (Seq.OStore k v tin d gs)) h -> In (Inv Seq.cop Seq.cret idf tf (Seq.OFetch k)) h ->
+    before h (Res Seq.cop Seq.cret ids Seq.RUnit) (Inv Seq.cop Seq.cret idf tf (Seq.OFetch k)) -> (now <= d)%Z ->
+    (forall idr tr o, In (Inv Seq.cop Seq.cret idr tr o) h -> idr <> ids ->
+       C07.MapSpec.invalidates k (C07.Defs.store_trigs k tin) (Seq.to_op now o) = true ->
+       exists rr, before h (Res Seq.cop Seq.cret idr rr) (Inv Seq.cop Seq.cret ids ts (Seq.OStore k v tin d gs))) ->
+    ~ In (Res Seq.cop Seq.cret idf Seq.RMiss) h.
+Proof. exact lin_miss_explained. Qed.
+Print Assumptions concurrent_miss_explained.
+
+Theorem lock_model_miss_explained : forall (now : Z) c, creachable now 0%N c ->
+  (forall id t k v tin d g, ~ In (Inv Seq.cop Seq.cret id t (Seq.OStoreFail k v tin d g)) (cc_hist c)) ->
+  forall ids ts k v tin d gs idf tf,
+    In (Inv Seq.cop Seq.cret ids ts (Seq.OStore k v tin d gs)) (cc_hist c) -> In (Inv Seq.cop Seq.cret idf tf (Seq.OFetch k)) (cc_hist c) ->
+    before (cc_hist c) (Res Seq.cop Seq.cret ids Seq.RUnit) (Inv Seq.cop Seq.cret idf tf (Seq.OFetch k)) -> (now <= d)%Z ->
+    (forall idr tr o, In (Inv Seq.cop Seq.cret idr tr o) (cc_hist c) -> idr <> ids ->
+       C07.MapSpec.invalidates k (C07.Defs.store_trigs k tin) (Seq.to_op now o) = true ->
+       exists rr, before (cc_hist c) (Res Seq.cop Seq.cret idr rr) (Inv Seq.cop Seq.cret ids ts (Seq.OStore k v tin d gs))) ->
+    ~ In (Res Seq.cop Seq.cret idf Seq.RMiss) (cc_hist c).
+Proof. exact lock_model_miss_explained_l. Qed.
+Print Assumptions lock_model_miss_explained.
+
+(* non-vacuous: the premises hold in the run of lock_model_nonvacuous (store returned, then two overlapping fetches) *)
+Example miss_explained_nonvacuous :
+  exists c, creachable 1000%Z 0%N c /\ In (Res Seq.cop Seq.cret 1 (Seq.RHit lv [lk] 2000%Z 0%N)) (cc_hist c) /\
+            ~ In (Res Seq.cop Seq.cret 1 Seq.RMiss) (cc_hist c).
+Proof.
+  destruct lock_model_nonvacuous as (c & Hc & Hh & _). exists c. split; [exact Hc|].
+  split; [rewrite Hh; simpl; tauto|].
+  apply (lock_model_miss_explained 1000%Z c Hc) with (ids := 0%nat) (ts := 0%nat) (k := lk) (v := lv) (tin := []) (d := 2000%Z)
+                                                   (gs := None) (tf := 1%nat).
+  - intros id t k v tin d g Hin. rewrite Hh in Hin. simpl in Hin. repeat (destruct Hin as [E|Hin]; [discriminate|]). contradiction.
+  - rewrite Hh. simpl. tauto.
+  - rewrite Hh. simpl. tauto.
+  - rewrite Hh. exists [Inv _ _ 0 0 (Seq.OStore lk lv [] 2000%Z None)], [], [Inv _ _ 2 2 (Seq.OFetch lk);
+                 Res _ _ 1 (Seq.RHit lv [lk] 2000%Z 0%N); Res _ _ 2 (Seq.RHit lv [lk] 2000%Z 0%N)]. reflexivity.
+  - lia.
+  - intros idr tr o Hin Hne Hiv. exfalso. rewrite Hh in Hin. simpl in Hin.
+    repeat (destruct Hin as [E|Hin]; [try discriminate; inversion E; subst; try (now apply Hne); simpl in Hiv; discriminate|]).
+    contradiction.
+Qed.
+
+(* the stats clause: in any history linearizable w.r.t. the cache object (any limit, any clock value) every stats() answer has
+   keys <= triggers and keys = 0 <-> triggers = 0 (every entry carries at least its own key as trigger: C07's mirror
+   invariant holds in the state of the linearization at which the stats call takes effect); the oracle's stats-inconsistent *)
+Theorem concurrent_stats_consistent : forall (now : Z) (lim : N) h,
+  linearizable C07.Defs.state Seq.cop Seq.cret (Seq.eff now) (C07.Defs.init lim) h ->
+  forall id keys trigs, In (Res Seq.cop Seq.cret id (Seq.RStats keys trigs)) h ->
+    (keys <= trigs)%N /\ (keys = 0%N <-> trigs = 0%N).
+Proof. exact lin_stats_consistent. Qed.
+Print Assumptions concurrent_stats_consistent.
+
+Theorem lock_model_stats_consistent : forall (now : Z) (limit : N) c, creachable now limit c ->
+  forall id keys trigs, In (Res Seq.cop Seq.cret id (Seq.RStats keys trigs)) (cc_hist c) ->
+    (keys <= trigs)%N /\ (keys = 0%N <-> trigs = 0%N).
+Proof. exact lock_model_stats_consistent_l. Qed.
+Print Assumptions lock_model_stats_consistent.
+
+(* non-vacuous: a store with one extra trigger, then stats in another thread: the model answers 1 key / 2 triggers *)
+Example stats_nonvacuous :
+  exists c, creachable 1000%Z 0%N c /\ In (Res Seq.cop Seq.cret 1 (Seq.RStats 1 2)) (cc_hist c).
+Proof.
+  pose proof (creach_init 1000%Z 0%N) as H.
+  fwd H ltac:(apply (cs_inv _ _ 0%nat (Seq.OStore lk lv [[116; 49]%N] 2000%Z None)); reflexivity).
+  fwd H ltac:(eapply (cs_lock_x _ _ 0%nat); [reflexivity|alone]).
+  fwd H ltac:(eapply (cs_effect _ _ 0%nat); reflexivity).
+  fwd H ltac:(eapply (cs_unlock_x _ _ 0%nat); reflexivity).
+  fwd H ltac:(eapply (cs_res_x _ _ 0%nat); reflexivity).
+  fwd H ltac:(apply (cs_inv _ _ 1%nat Seq.OStats); reflexivity).
+  fwd H ltac:(eapply (cs_lock_s _ _ 1%nat); [reflexivity|alone]).
+  fwd H ltac:(eapply (cs_stats _ _ 1%nat); reflexivity).
+  fwd H ltac:(eapply (cs_unlock_s _ _ 1%nat); reflexivity).
+  fwd H ltac:(eapply (cs_res_s _ _ 1%nat); reflexivity).
+  eexists. split; [exact H|]. vm_compute. tauto.
+Qed.
+
+(* the size limit: with a limit > 0 no stats() answer of a history linearizable w.r.t. the cache object reports more keys
+   than the limit (the eviction loop of store leaves room for the new entry: Proofs12.loop_post, over C07's model; the bound is
+   an invariant of every legal sequential run).  The oracle's stats-keys-out-of-range. *)
+Theorem concurrent_stats_within_limit : forall (now : Z) (lim : N) h,
+  linearizable C07.Defs.state Seq.cop Seq.cret (Seq.eff now) (C07.Defs.init lim) h -> (0 < lim)%N ->
+  forall id keys trigs, In (Res Seq.cop Seq.cret id (Seq.RStats keys trigs)) h -> (keys <= lim)%N.
+Proof. exact lin_stats_within_limit. Qed.
+Print Assumptions concurrent_stats_within_limit.
+
+Theorem lock_model_stats_within_limit : forall (now : Z) (lim : N) c, creachable now lim c -> (0 < lim)%N ->
+  forall id keys trigs, In (Res Seq.cop Seq.cret id (Seq.RStats keys trigs)) (cc_hist c) -> (keys <= lim)%N.
+Proof. exact lock_model_stats_within_limit_l. Qed.
+Print Assumptions lock_model_stats_within_limit.
+
+(* non-vacuous: limit 1, two stores of different keys, then stats: the model answers 1 key (the first entry was evicted) *)
+Definition lk2 : C07.Defs.key := [107; 50]%N.
+Ltac fwd1 H tac :=
+  let H' := fresh "H" in
+  eassert (H' : creachable 1000%Z 1%N _); [eapply creach_step; [exact H | tac] | clear H; rename H' into H; vm_compute in H].
+Example limit_nonvacuous :
+  exists c, creachable 1000%Z 1%N c /\ In (Res Seq.cop Seq.cret 2 (Seq.RStats 1 1)) (cc_hist c).
+Proof.
+  pose proof (creach_init 1000%Z 1%N) as H.
+  fwd1 H ltac:(apply (cs_inv _ _ 0%nat (Seq.OStore lk lv [] 2000%Z None)); reflexivity).
+  fwd1 H ltac:(eapply (cs_lock_x _ _ 0%nat); [reflexivity|alone]).
+  fwd1 H ltac:(eapply (cs_effect _ _ 0%nat); reflexivity).
+  fwd1 H ltac:(eapply (cs_unlock_x _ _ 0%nat); reflexivity).
+  fwd1 H ltac:(eapply (cs_res_x _ _ 0%nat); reflexivity).
+  fwd1 H ltac:(apply (cs_inv _ _ 0%nat (Seq.OStore lk2 lv [] 2000%Z None)); reflexivity).
+  fwd1 H ltac:(eapply (cs_lock_x _ _ 0%nat); [reflexivity|alone]).
+  fwd1 H ltac:(eapply (cs_effect _ _ 0%nat); reflexivity).
+  fwd1 H ltac:(eapply (cs_unlock_x _ _ 0%nat); reflexivity).
+  fwd1 H ltac:(eapply (cs_res_x _ _ 0%nat); reflexivity).
+  fwd1 H ltac:(apply (cs_inv _ _ 1%nat Seq.OStats); reflexivity).
+  fwd1 H ltac:(eapply (cs_lock_s _ _ 1%nat); [reflexivity|alone]).
+  fwd1 H ltac:(eapply (cs_stats _ _ 1%nat); reflexivity).
+  fwd1 H ltac:(eapply (cs_unlock_s _ _ 1%nat); reflexivity).
+  fwd1 H ltac:(eapply (cs_res_s _ _ 1%nat); reflexivity).
+  eexists. split; [exact H|]. vm_compute. tauto.
 Qed.
